@@ -25,6 +25,7 @@ func TestVerifReplayC19StoreOwnedSessionRace(t *testing.T) {
 	client := &fosite.DefaultClient{ID: "app", GrantTypes: fosite.Arguments{"authorization_code"}, RedirectURIs: []string{"https://app.example/cb"}}
 
 	stored := fosite.NewRequest()
+	stored.SetID("grant-1") // as in the real flow: the request is stored through Sanitize, which fixes its id
 	stored.Client = client
 	stored.Session = &fosite.DefaultSession{Subject: "peter"}
 	stored.Form = url.Values{"redirect_uri": {"https://app.example/cb"}}
